@@ -59,6 +59,12 @@ Definition crosstab_levels (n0 n1 : nat) (row_margin col_margin : bool) : list n
 Definition crosstab_cell (n0 n1 : nat) (row_margin col_margin : bool) (D : list (mkey * V)) (r c : mkey) : option V :=
   lookup (r ++ c) (add_row_margin (n0 + n1) (crosstab_levels n0 n1 row_margin col_margin) D).
 
+(* add_row_margin refuses a frame in which a group is itself labelled 'All' (the total would overwrite it) *)
+Definition has_all_label (D : list (mkey * V)) : bool :=
+  existsb (fun r => existsb (fun x => match x with None => true | Some _ => false end) (fst r)) D.
+Definition add_row_margin_checked (n : nat) (levels : list nat) (D : list (mkey * V)) : option (list (mkey * V)) :=
+  if has_all_label D then None else Some (add_row_margin n levels D).
+
 (* what a row of the result must be: the aggregate of the data rows its key stands for *)
 Fixpoint matches (q k : mkey) : bool :=
   match q, k with
@@ -77,7 +83,13 @@ End Margins.
 From Coq Require Import String.
 Open Scope string_scope.
 Definition add_row_margin_source : list string :=
-  ["data = data.sort_index()";
+  ["index = data.index";
+   "for lvl in range(index.nlevels)";
+   "if 'All' in index.get_level_values(lvl)";
+   "raise ValueError('Conflicting name 'All' in margins: a group is labelled 'All'')";
+   "end";
+   "end";
+   "data = data.sort_index()";
    "index = data.index";
    "if index.nlevels == 1";
    "data.loc['All'] = data.agg(agg_func)";
